@@ -260,6 +260,14 @@ def specEval (ext : ExtOracle) (ctx : Ctx) : Template → Except EErr Val
         | .error x => .error x
         | .ok s => .ok (.ok (.str s))
 
+/-- braces (the bracket tokens, i.e. every `{` / `}` outside a pointer) open and close embeddings one at a time:
+    never nested, never closed when not open, closed at the end. `opened` = an embedding is currently open. -/
+def braceBalanced : Bool → List TokType → Bool
+  | opened, [] => !opened
+  | opened, .lbracket :: rest => !opened && braceBalanced true rest
+  | opened, .rbracket :: rest => opened && braceBalanced false rest
+  | opened, _ :: rest => braceBalanced opened rest
+
 /-! ## the derived request -/
 
 /-- the value a link finally supplies for `name` in a container: its last definition, if that evaluated to a
